@@ -1081,15 +1081,23 @@ class NonDoc:
 
 @P.register_pretty(NonDoc)
 def pretty_nondoc(value, ctx):
-    return 42
+    return NonDoc.result
+
+
+NonDoc.result = 42
+# things a printer may wrongly return: truthy and falsy ones, containers, bytes, another Doc-less object
+NON_DOC_RESULTS = [42, None, 0, 0.0, False, True, [], (), {}, set(), b'', b'x', ['x'], ('a',), {'k': 1}, 3.5, object(), NonDoc]
 
 
 def non_doc_scenarios(chk):
     """A printer returning neither str nor Doc is reported with ValueError (raised by pformat,
     or named in the warning when an enclosing printer catches it)."""
     shared = NonDoc()
-    for name, v in (('top', NonDoc()), ('in-list', [1, NonDoc()]), ('in-dict', {'k': NonDoc()}),
-                    ('shared', [[shared], shared])):
+    for result in NON_DOC_RESULTS:
+      NonDoc.result = result
+      for name, v in (('top', NonDoc()), ('in-list', [1, NonDoc()]), ('in-dict', {'k': NonDoc()}),
+                      ('shared', [[shared], shared])):
+        name = '%s, printer returns %r' % (name, result)
         try:
             with warnings.catch_warnings(record=True) as wl:
                 warnings.simplefilter('always')
@@ -1097,15 +1105,15 @@ def non_doc_scenarios(chk):
                     out = P.pformat(v)
             msgs = ' '.join(str(w.message) for w in wl)
             if 'Recursion' in out:
-                chk.violation('C14.non-doc', 'after a printer returned 42 a later occurrence of the same object is '
+                chk.violation('C14.non-doc', 'after a printer returned a non-Doc a later occurrence of the same object is '
                               'printed as a recursion marker: %r' % (out,), {'scenario': name})
             if 'ValueError' not in msgs or 'pretty_nondoc' not in msgs:
-                chk.violation('C14.non-doc', 'a printer returning 42 (%s) was not reported with ValueError: output %r, '
+                chk.violation('C14.non-doc', 'a printer returning a non-Doc (%s) was not reported with ValueError: output %r, '
                               'warnings %r' % (name, out, msgs[:300]), {'scenario': name})
         except ValueError as e:
             if 'pretty_nondoc' not in str(e):
                 chk.violation('C14.non-doc', 'ValueError does not name the printer: %r' % (e,), {'scenario': name})
         except (Exception, common.Timeout) as e:  # noqa
-            chk.violation('C14.non-doc', 'a printer returning 42 (%s) led to %r instead of ValueError' % (name, e),
+            chk.violation('C14.non-doc', 'a printer returning a non-Doc (%s) led to %r instead of ValueError' % (name, e),
                           {'scenario': name})
         chk.cov['evaluations'] += 1
